@@ -63,13 +63,21 @@ QuasiDiff(A, B, unit) ==
 HasTie(A) == \E k \in 1 .. Len(A.acts) : A.acts[k].tag = "tie"
 Obs(P, f) == IF P.obs[f] THEN {} ELSE {<<f, 0>>}
 
+(* F26 (known finding): qpq takes Python's max()/min() of the quotients under the guarded (tolerant) comparison, which is not  *)
+(* transitive: when two hopeful candidates' quotients differ by less than the tolerance without being equal, the extreme found -- *)
+(* and with it `elect the highest' versus `exclude the lowest' -- depends on the order of the candidate list                     *)
+NearTieQuot(T) == T.fam = "qpq" /\ \E k \in 1 .. Len(T.acts) : \E c, d \in 1 .. T.nc :
+                    /\ c # d /\ T.acts[k].st[c] = "H" /\ T.acts[k].st[d] = "H"
+                    /\ T.acts[k].quot[c] # T.acts[k].quot[d]
+                    /\ T.acts[k].quot[c] - T.acts[k].quot[d] < T.geps /\ T.acts[k].quot[d] - T.acts[k].quot[c] < T.geps
 PairFails(P) ==
   CASE P.rel = "C07e" -> IF HasTie(P.a) THEN {} ELSE SameHistory(P.a, P.b, TRUE) \cup Obs(P, "same_dump")
     [] P.rel = "C10"  -> SameHistory(P.a, P.b, FALSE) \cup Obs(P, "same_dump") \cup
                          (IF P.obs.same_report THEN {}
                           ELSE IF P.obs.only_stats_differ /\ P.a.kind = "guarded" THEN {<<"KNOWN_F12", 0>>}
                           ELSE {<<"same_report", 0>>})
-    [] P.rel = "C11a" -> FinalDiff(P.a, P.b, P.map)
+    [] P.rel = "C11a" -> IF FinalDiff(P.a, P.b, P.map) # {} /\ (NearTieQuot(P.a) \/ NearTieQuot(P.b)) THEN {<<"KNOWN_F26", 0>>}
+                         ELSE FinalDiff(P.a, P.b, P.map)
     [] P.rel = "C11b" -> SameByName(P.a, P.b, P.map)
     [] P.rel = "C13b" -> SameHistory(P.a, P.b, TRUE) \cup Obs(P, "same_dump")
     [] P.rel = "C13c" -> IF P.obs.quiet_stats THEN QuasiDiff(P.a, P.b, P.unit) ELSE {}
